@@ -363,6 +363,29 @@ class Recorder:
         self._finish(ev, recv=idx, ret=project(res) if res is not None else dict(NOREP), desc=("copy",))
         return res
 
+    def indx_roundtrip(self, idx):
+        """save the index's parts to an INDX file, load them, rebuild an index: judged like copy() (same dense array, same
+        common value, well-formed, receiver untouched)"""
+        import io
+        from catii.indxio import IndxIO
+        import tempfile, os
+        ev = self._ev("copy", recv=idx)
+
+        def run():
+            fd, path = tempfile.mkstemp(suffix=".indx", dir=os.environ.get("VERIF_WORK") or None)
+            os.close(fd)
+            try:
+                with open(path, "wb") as f:
+                    IndxIO.save(f, idx, idx.common, np.dtype(np.uint32))
+                with open(path, "rb") as f:
+                    ents, common, _ = IndxIO.load(f)
+                return self.iindex({k: np.array(v, dtype=np.uint32) for k, v in ents.items()}, common, idx.shape)
+            finally:
+                os.unlink(path)
+        res = self._call(ev, run)
+        self._finish(ev, recv=idx, ret=project(res) if res is not None else dict(NOREP), desc=("INDX save + load + rebuild",))
+        return res
+
     def column_stack_op(self, idxs, new_common=None, copy=False):
         args = {"hasnewcommon": new_common is not None, "newcommon": V(new_common), "copy": bool(copy)}
         ev = self._ev("column_stack", others=list(idxs), args=args)
